@@ -15,6 +15,8 @@ const CARRIAGE_RETURN: u8 = b'\r';
 /// This is created by calling [`super::Reader::sequence_reader`].
 pub struct Reader<'r, R> {
     inner: &'r mut R,
+    is_bol: bool,
+    has_pending_cr: bool,
 }
 
 impl<'r, R> Reader<'r, R>
@@ -22,7 +24,11 @@ where
     R: BufRead,
 {
     pub(super) fn new(inner: &'r mut R) -> Self {
-        Self { inner }
+        Self {
+            inner,
+            is_bol: true,
+            has_pending_cr: false,
+        }
     }
 }
 
@@ -45,58 +51,65 @@ where
     fn fill_buf(&mut self) -> io::Result<&[u8]> {
         use memchr::memchr;
 
-        consume_empty_lines(&mut self.inner)?;
+        let len = loop {
+            let src = self.inner.fill_buf()?;
 
-        let src = self.inner.fill_buf()?;
+            if self.has_pending_cr {
+                // The carriage return that ended the previous buffer is part of the line
+                // terminator only if a line feed (or EOF) follows.
+                if src.first().is_some_and(|&b| b != LINE_FEED) {
+                    return Ok(&[CARRIAGE_RETURN]);
+                }
 
-        let is_eof = src.is_empty();
-        let is_end_of_sequence = || src[0] == DEFINITION_PREFIX;
+                self.has_pending_cr = false;
+            }
 
-        if is_eof || is_end_of_sequence() {
-            return Ok(&[]);
-        }
+            let Some(&b) = src.first() else {
+                return Ok(&[]);
+            };
 
-        let line = match memchr(LINE_FEED, src) {
-            Some(i) => &src[..i],
-            None => src,
+            if b == LINE_FEED || (self.is_bol && b == CARRIAGE_RETURN) {
+                self.inner.consume(1);
+                self.is_bol = true;
+                continue;
+            }
+
+            if b == DEFINITION_PREFIX {
+                return Ok(&[]);
+            }
+
+            let line = match memchr(LINE_FEED, src) {
+                Some(i) => &src[..i],
+                None => src,
+            };
+
+            match line.strip_suffix(&[CARRIAGE_RETURN]) {
+                Some([]) => {
+                    self.inner.consume(1);
+                    self.has_pending_cr = true;
+                }
+                Some(line) => break line.len(),
+                None => break line.len(),
+            }
         };
 
-        if line.ends_with(&[CARRIAGE_RETURN]) {
-            let end = line.len() - 1;
-            Ok(&line[..end])
-        } else {
-            Ok(line)
-        }
+        let src = self.inner.fill_buf()?;
+        Ok(&src[..len])
     }
 
     fn consume(&mut self, amt: usize) {
-        self.inner.consume(amt);
-    }
-}
-
-fn consume_empty_lines<R>(reader: &mut R) -> io::Result<()>
-where
-    R: BufRead,
-{
-    loop {
-        let mut is_newline = false;
-
-        if reader.fill_buf()?.starts_with(&[CARRIAGE_RETURN]) {
-            is_newline = true;
-            reader.consume(1);
+        if amt == 0 {
+            return;
         }
 
-        if reader.fill_buf()?.starts_with(&[LINE_FEED]) {
-            is_newline = true;
-            reader.consume(1);
-        }
-
-        if !is_newline {
-            break;
+        if self.has_pending_cr {
+            // `fill_buf` returned the carriage return that was held back.
+            self.has_pending_cr = false;
+        } else {
+            self.inner.consume(amt);
+            self.is_bol = false;
         }
     }
-
-    Ok(())
 }
 
 pub(super) fn read_sequence<R>(reader: &mut R, buf: &mut Vec<u8>) -> io::Result<usize>
@@ -196,6 +209,35 @@ mod tests {
         t(&mut buf, b"ACGT\n", 5, b"ACGT")?;
         t(&mut buf, b"ACGT\r\n>sq0\r\n", 5, b"ACGT")?;
         t(&mut buf, b"ACGT\r\nACGT\r\nAC\r\n", 5, b"ACGTA")?;
+
+        Ok(())
+    }
+
+    #[test]
+    fn test_read_sequence_with_small_buffers() -> io::Result<()> {
+        use std::io::BufReader;
+
+        fn t(src: &[u8]) -> io::Result<()> {
+            let mut expected = Vec::new();
+            read_sequence(&mut &src[..], &mut expected)?;
+
+            for capacity in 1..=src.len() {
+                let mut reader = BufReader::with_capacity(capacity, src);
+                let mut actual = Vec::new();
+                read_sequence(&mut reader, &mut actual)?;
+                assert_eq!(actual, expected, "capacity = {capacity}");
+            }
+
+            Ok(())
+        }
+
+        t(b"ACGT\r\nAC\r\n\r\n>sq1\r\n")?;
+        t(b"AC\rGT\nAC\r\r\nA\r")?;
+        t(b"\rAC\n\r\r\nGT\n\r>sq1\n")?;
+
+        let mut buf = Vec::new();
+        read_sequence(&mut &b"AC\rGT\nAC\r\r\nA\r"[..], &mut buf)?;
+        assert_eq!(buf, b"AC\rGTAC\rA");
 
         Ok(())
     }
